@@ -25,6 +25,9 @@ Statement level
     so early-return style and nested if/else style coincide
   * `if k in X: v = X[k] else: v = d`            ->  `v = X.get(k, d)`
   * `if c: pass else: B` -> `if not c: B`; stray `pass` removed
+  * `if a: S elif b: S else: T` -> `if a or b: S else: T` (equal arms, simple tests)
+  * `a, b = (x, y)` -> `a = x`; `b = y` (plain distinct names not read on the right)
+  * case splitting (sa/casesplit.py): `if V in ('a','b'): S` whose body switches on V again -> one arm per literal
   * `if a: (if b: X)` without else -> `if a and b: X`;  `if k in M: x = M[k]` -> `x = M.get(k, x)`
   * with both arms present the positive test is kept: `if a is not None: A else: B` -> `if a is None: B else: A`
     (negative = not / != / not in / is not / >= / <= / a disjunction whose negation is positive)
@@ -150,6 +153,8 @@ class ExprCanon(ast.NodeTransformer):
         self.generic_visit(node)
         vals = []
         for v in node.values:
+            if isinstance(v, ast.FormattedValue) and v.conversion == -1 and v.format_spec is None and isinstance(v.value, ast.Constant) and isinstance(v.value.value, str):
+                v = _loc(ast.Constant(value=v.value.value), v)
             if isinstance(v, ast.Constant) and vals and isinstance(vals[-1], ast.Constant):
                 vals[-1] = _loc(ast.Constant(value=vals[-1].value + v.value), vals[-1])
             else:
@@ -326,6 +331,20 @@ def _fold_dict_stores(stmts):
     return out
 
 
+def _split_tuple_assigns(stmts):
+    """`a, b = (x, y)` with plain names on the left that do not occur on the right -> `a = x`, `b = y`"""
+    out = []
+    for s in stmts:
+        if isinstance(s, ast.Assign) and len(s.targets) == 1 and isinstance(s.targets[0], ast.Tuple) and isinstance(s.value, ast.Tuple) and len(s.targets[0].elts) == len(s.value.elts) and all(isinstance(t, ast.Name) for t in s.targets[0].elts) and not any(isinstance(v, ast.Starred) for v in s.value.elts):
+            tnames = {t.id for t in s.targets[0].elts}
+            if len(tnames) == len(s.targets[0].elts) and not any(isinstance(n, ast.Name) and n.id in tnames for v in s.value.elts for n in ast.walk(v)) and not any(isinstance(n, (ast.Call, ast.Yield, ast.YieldFrom, ast.Await)) for v in s.value.elts[1:] for n in ast.walk(v)):
+                for t, v in zip(s.targets[0].elts, s.value.elts):
+                    out.append(_loc(ast.Assign(targets=[t], value=v), s))
+                continue
+        out.append(s)
+    return out
+
+
 def _fold_list_appends(stmts):
     """`X = [..]` directly followed by `X.append(e)` (e not mentioning X)  ->  e joins the display"""
     out = []
@@ -488,6 +507,7 @@ def canon_block(stmts):
     stmts = [canon_stmt(s) for s in stmts]
     if len(stmts) > 1:
         stmts = [s for s in stmts if not isinstance(s, ast.Pass)] or stmts[:1]
+    stmts = _split_tuple_assigns(stmts)
     stmts = _fold_dict_stores(stmts)
     stmts = _fold_list_appends(stmts)
     stmts = [_merge_arms(s) if isinstance(s, ast.If) else s for s in stmts]
@@ -508,7 +528,10 @@ def canon_block(stmts):
             res = [swap_if(s)]
         else:
             res.insert(0, swap_if(s) if isinstance(s, ast.If) else s)
-    return [_bool_if_deep(s) for s in res]
+    res = [_bool_if_deep(s) for s in res]
+    if len(res) > 1:
+        res = [s for s in res if not isinstance(s, ast.Pass)] or res[:1]
+    return res
 
 
 def _certainly_int(e):
@@ -625,16 +648,27 @@ def _only_pass(stmts):
 _NEGATIVE_OPS = (ast.NotEq, ast.NotIn, ast.IsNot, ast.GtE, ast.LtE)
 
 
+def _polarity(t):
+    """(number of negative leaves, is a disjunction): the member of a pair (t, not t) with the smaller key is kept"""
+    neg = 0
+    todo = [t]
+    while todo:
+        x = todo.pop()
+        if isinstance(x, ast.BoolOp):
+            todo.extend(x.values)
+        elif isinstance(x, ast.UnaryOp) and isinstance(x.op, ast.Not):
+            neg += 1
+        elif isinstance(x, ast.Compare) and len(x.ops) == 1 and isinstance(x.ops[0], _NEGATIVE_OPS):
+            neg += 1
+    return (neg, 1 if isinstance(t, ast.BoolOp) and isinstance(t.op, ast.Or) else 0)
+
+
 def _negative(t):
-    """the test is the 'negative' member of a pair (t, not t): with both arms present the positive one is kept"""
-    if isinstance(t, ast.UnaryOp) and isinstance(t.op, ast.Not):
-        return True
-    if isinstance(t, ast.Compare) and len(t.ops) == 1 and isinstance(t.ops[0], _NEGATIVE_OPS):
-        return True
-    if isinstance(t, ast.BoolOp) and isinstance(t.op, ast.Or):
-        # De Morgan dual: a disjunction whose negation is a conjunction of simple tests
-        return True
-    return False
+    """the test is the 'negative' member of the pair (t, not t): with both arms present the positive one is kept"""
+    if not isinstance(t, (ast.UnaryOp, ast.Compare, ast.BoolOp)):
+        return False
+    other = ExprCanon().visit(ast.fix_missing_locations(negate(copy.deepcopy(t))))
+    return _polarity(other) < _polarity(t)
 
 
 def _merge_nested_if(s):
@@ -648,6 +682,14 @@ def _merge_nested_if(s):
 
 def swap_if(s):
     t = s.test
+    if isinstance(t, ast.Constant) and isinstance(t.value, bool):
+        # decided test: only the live arm remains (kept as an `if True:` shell so that one statement stays one)
+        live = s.body if t.value else s.orelse
+        if not live:
+            return _loc(ast.Pass(), s)
+        if len(live) == 1:
+            return live[0]
+        return _loc(ast.If(test=_loc(ast.Constant(value=True), t), body=live, orelse=[]), s)
     if _only_pass(s.orelse):
         s = _loc(ast.If(test=s.test, body=s.body, orelse=[]), s)
     if _only_pass(s.body) and s.orelse:
@@ -660,6 +702,13 @@ def swap_if(s):
             cur = _loc(ast.Name(id=b0.targets[0].id, ctx=ast.Load()), b0)
             call = _loc(ast.Call(func=_loc(ast.Attribute(value=M, attr="get", ctx=ast.Load()), s), args=[k, cur], keywords=[]), s)
             return _loc(ast.Assign(targets=b0.targets, value=call), s)
+    # if a: S elif b: S [else: T]  ->  if a or b: S [else: T]
+    while len(s.orelse) == 1 and isinstance(s.orelse[0], ast.If) and [_dump(x) for x in s.orelse[0].body] == [_dump(x) for x in s.body] and _simple_test(s.test) and _simple_test(s.orelse[0].test):
+        nxt = s.orelse[0]
+        vals = (list(s.test.values) if isinstance(s.test, ast.BoolOp) and isinstance(s.test.op, ast.Or) else [s.test]) + (list(nxt.test.values) if isinstance(nxt.test, ast.BoolOp) and isinstance(nxt.test.op, ast.Or) else [nxt.test])
+        test = ExprCanon().visit(ast.fix_missing_locations(_loc(ast.BoolOp(op=ast.Or(), values=vals), s.test)))
+        s = _loc(ast.If(test=test, body=s.body, orelse=nxt.orelse), s)
+        t = s.test
     if s.orelse and _negative(t):
         neg = ExprCanon().visit(ast.fix_missing_locations(negate(copy.deepcopy(t))))
         if not _negative(neg):
@@ -705,6 +754,17 @@ def canon_stmt(s):
 
 
 def canonicalise(tree):
+    from .casesplit import split_cases
+
+    tree = _canonicalise_once(tree)
+    before = sum(1 for n in ast.walk(tree) if isinstance(n, ast.If))
+    tree = split_cases(tree)
+    if sum(1 for n in ast.walk(tree) if isinstance(n, ast.If)) != before:
+        tree = _canonicalise_once(tree)
+    return tree
+
+
+def _canonicalise_once(tree):
     tree = ExprCanon().visit(tree)
     tree = _Tests().visit(tree)
     tree.body = [canon_stmt(s) for s in tree.body]
